@@ -4,6 +4,7 @@
 from math import prod
 from typing import Callable, Dict, List, Optional, Tuple, Union
 
+import jax
 import jax.numpy as jnp
 import numpy as np
 import pandas as pd
@@ -273,8 +274,18 @@ def integrate(
     )
     all_states, all_params = init_fn(params, all_states, param_state, delta_t)
 
-    def _body_fun(state, externals):
-        state = step_fn(state, all_params, externals, external_inds, delta_t)
+    def _body_fun(state, inputs):
+        externals, is_real_step = inputs
+        old_state = dict(state)  # `step_fn` updates the dictionary in place.
+        new_state = step_fn(state, all_params, externals, external_inds, delta_t)
+        # Steps that only pad the simulation to `prod(checkpoint_lengths)` must not
+        # advance the state: the returned states belong to the last returned time.
+        state = {
+            key: jnp.where(is_real_step, new_state[key], old_state[key])
+            if key in old_state
+            else new_state[key]
+            for key in new_state
+        }
         recs = jnp.asarray(
             [
                 state[rec_state][rec_ind]
@@ -318,10 +329,11 @@ def integrate(
     init_recording = jnp.expand_dims(init_recs, axis=0)
 
     # Run simulation.
+    is_real_step = jnp.arange(length) < nsteps_to_return
     all_states, recordings = nested_checkpoint_scan(
         _body_fun,
         all_states,
-        externals,
+        (externals, is_real_step),
         length=length,
         nested_lengths=checkpoint_lengths,
     )
